@@ -25,6 +25,9 @@
 #include "kinds_gen.h"
 #include "libparser.h"   // UTAP::tracker (the process-global position counter)
 #include "trace_gen.h"   // TraceBuilder (generated from builder.h)
+#ifdef UTAPDUMP_COV
+extern "C" void __gcov_dump(void);
+#endif
 
 #include <cstdio>
 #include <cstring>
@@ -778,6 +781,9 @@ int main(int argc, char** argv)
                 catch (std::exception& x) { printf("EXC-ESCAPED %s\n", demangle(typeid(x).name()).c_str()); st = 3; }
                 catch (...) { printf("EXC-ESCAPED non-std\n"); st = 4; }
                 fflush(stdout);
+#ifdef UTAPDUMP_COV
+                __gcov_dump();   // coverage build: the child leaves through _exit, which skips the counters' atexit flush
+#endif
                 _exit(st);
             }
             int st = 0;
